@@ -4,6 +4,7 @@ observable events.  Exactly one virtual process runs at a time; a run is a deter
 function of (scenario, sequence of moves)."""
 import json
 import os
+import shutil
 import re
 import select
 import signal
@@ -160,6 +161,8 @@ class World:
         self.squeue_empty = int(scn.get("squeue_empty", 0))   # status queries answered "no jobs" (exit 0) although batches are
         self.squeue_empty_skip = int(scn.get("squeue_empty_skip", 0))   # active (controller restart) ... after this many
         self.faults_armed = {}  # pid -> dict(op=..., n=...)
+        self.cwd = None         # working directory of the virtual processes (pipelines: auto-config files are relative)
+        self.autoconfig = {}    # stage number (str) -> dict(src=<config file to deliver>, rc=<exit code>)
         self.steps = 0
 
     # ------------------------------------------------------------------ recording
@@ -175,7 +178,7 @@ class World:
         label = label or (argv[1] if argv else func)
         vp = {"pid": pid, "kind": kind, "host": host, "env": env or {}, "argv": argv,
               "module": module, "func": func, "args": args or {}, "root": self.base, "now": self.now,
-              "audit": STATE_AUDIT_PAT if self.fault_mode else None,
+              "audit": STATE_AUDIT_PAT if self.fault_mode else None, "cwd": self.cwd,
               "log": os.path.join(self.base, f"vp{pid}.log") if self.debug else None}
         p = VProc(self, pid, kind, host, vp, parent=parent, batch=batch, label=label)
         self.procs.append(p)
@@ -562,6 +565,19 @@ class World:
                     out=hout, envok=os.path.abspath(hout) == os.path.abspath(self.out) if hout else False,
                     grp=env.get("JADE_SUBMISSION_GROUP", ""), rc=rc, dir=self._dname(hout) if hout else "out",
                     rows=project.names_with_rows(hout) if hout else [], live=live)
+            h = self._newh(type="quick", state="done", rc=rc, owner=p.pid)
+            return self._reply(p, h=h, rc=rc, stdout="", stderr="")
+        if a0 == "vautoconfig":
+            # a pipeline stage's auto-config command: it sees the pipeline status file and must leave config-stage<k>.json
+            k = argv[1]
+            plan = self.autoconfig.get(k, {})
+            rc = int(plan.get("rc", 0))
+            pj = project.read_pipeline(os.path.dirname(env.get("JADE_PIPELINE_STATUS_FILE", "")) or self.out) or \
+                {"stage": -1, "rcs": [], "complete": False}
+            self.ev(e="autoconfig", pid=p.pid, k=int(k), envstage=int(env.get("JADE_PIPELINE_STAGE_ID", "-1") or -1),
+                    envout=env.get("JADE_PIPELINE_OUTPUT_DIR", ""), stage=pj["stage"], rcs=pj["rcs"], rc=rc)
+            if rc == 0 and plan.get("src"):
+                shutil.copyfile(plan["src"], os.path.join(self.cwd or os.getcwd(), f"config-stage{k}.json"))
             h = self._newh(type="quick", state="done", rc=rc, owner=p.pid)
             return self._reply(p, h=h, rc=rc, stdout="", stderr="")
         self.ev(e="unknowncmd", pid=p.pid, argv=argv)
